@@ -11,7 +11,10 @@ BIN = 'san'
 
 CMDS = [['cat'], ['info', '#.*'], ['type', 'HELLO'], ['type', '--binary', 'HELLO'], ['list', '!BOOT'], ['dump', 'W.WORLD'],
         ['dump-sector', '0', '0', '1'], ['free'], ['space'], ['sector-map'], ['show-titles'], ['help'], ['cat', '2'],
-        ['type', 'NOSUCH'], ['info', ':2.#.*'], ['extract-files', 'out'], ['extract-unused', 'out'], ['nosuchcmd'], ['dump-sector', '9', '0', '0']]
+        ['type', 'NOSUCH'], ['info', ':2.#.*'], ['extract-files', 'out'], ['extract-unused', 'out'], ['nosuchcmd'], ['dump-sector', '9', '0', '0'],
+        # a selection made before a presentation option must survive it (--ui is also tried AFTER these)
+        ['--dir', 'W', '--drive', '2', 'cat'], ['--dir', 'W', '--drive', '0', 'info', '#.*'], ['--dir', 'W', '--drive', '2', 'extract-files', 'out'],
+        ['--dir', 'W', '--drive', '0', 'cat']]
 
 
 def mkres():
@@ -70,6 +73,17 @@ def image_set():
             disc.Entry(b'\tX', b'$', False, 0, 0, 10, 6), disc.Entry(b'CR\rX', b'$', False, 0, 0, 10, 5), disc.Entry(b'LF\nX', b'R', False, 0, 0, 10, 4),
             disc.Entry(b'BS\x08', b'$', False, 0, 0, 10, 3), disc.Entry(b'PLAIN', b'$', False, 0, 0, 10, 2)]
     im['ctl.ssd'] = disc.acorn_surface(disc.Volume(ents, b'TI\tTLE', 3, 2), 400, b'c')[:12 * 256]
+    # identification near-misses (the recogniser's reject branches carry verbose-only explanations): every incomplete Opus
+    # table variant, partly consistent tables, Watford marker imitations - all valid Acorn discs
+    from checks import c13
+    seen = set()
+    for c in list(c13.fam_opus_imitation('quick')) + list(c13.fam_opus_partial('quick'))[::17] + list(c13.fam_marker_imitation('quick'))[254:258]:
+        key = c['sig'] + ('cut' if c.get('cut') else '')
+        if key in seen and 'partial' not in key and 'beyond' not in key:
+            continue
+        seen.add(key)
+        name, data, _ = c13.build(c)
+        im['n_%02d.%s' % (len([k for k in im if k.startswith('n_')]), c['ext'])] = data
     im['h_bad.ssd.gz'] = images.gz(v['ssd'])[:-5]
     b = bytearray(v['mmb']); b[16 + 15] = 0x55; im['h_status.mmb'] = bytes(b)
     im['h_empty.dsd'] = b''
@@ -77,7 +91,7 @@ def image_set():
     return im
 
 
-def run_variant(d, fname, cmd, opts_before, opts_after, ui, env=None):
+def run_variant(d, fname, cmd, opts_before, opts_after, ui, env=None, ui_late=False):
     od = os.path.join(d, 'out')
     if os.path.exists(od):
         for x in os.listdir(od):
@@ -85,8 +99,10 @@ def run_variant(d, fname, cmd, opts_before, opts_after, ui, env=None):
     else:
         os.makedirs(od)
     argv = list(opts_before) + (['--ui', ui] if ui else []) + ['--file', fname] + list(opts_after) + cmd
+    if ui_late:
+        argv = list(opts_before) + ['--file', fname] + list(opts_after) + cmd[:4] + ['--ui', ui] + cmd[4:]
     r = dfsrun.dfs(BIN, argv, d, env=env, timeout=30)
-    tree = dfsrun.read_tree(od) if cmd[0].startswith('extract') else None
+    tree = dfsrun.read_tree(od) if any(c.startswith('extract') for c in cmd) else None
     return r, tree
 
 
@@ -106,6 +122,8 @@ def w_options(case):
         dfsrun.write(d, fname, image_set()[fname])
         hostile = fname.startswith('h_')
         for cmd in case['cmds']:
+            sel = cmd[0] == '--dir'
+            verb = cmd[4] if sel else cmd[0]
             base, btree = run_variant(d, fname, cmd, [], [], None)
             base2, _ = run_variant(d, fname, cmd, [], [], None)
             res['n'] += 2
@@ -129,27 +147,28 @@ def w_options(case):
                     what = 'exit' if r.status() != base.status() else ('stdout' if r.out != base.out else 'files')
                     opt = 'verbose' if '--verbose' in before + after else 'show-config'
                     bump(res, 'differs')
-                    res['viol'].append(('%s:%s-changes-%s:%s' % (sig, opt, what, cmd[0]), '%s: %r with %s before / %s after --file: %s/%dB vs plain %s/%dB' % (
+                    res['viol'].append(('%s:%s-changes-%s:%s' % (sig, opt, what, verb), '%s: %r with %s before / %s after --file: %s/%dB vs plain %s/%dB' % (
                         fname, cmd, before, after, r.status(), len(r.out), base.status(), len(base.out))))
                 else:
                     bump(res, 'same')
-            for ui in ('acorn', 'watford', 'opus', 'Acorn', 'Watford', 'Opus'):
-                r, tree = run_variant(d, fname, cmd, [], [], ui)
+            for ui, late in [(u, False) for u in ('acorn', 'watford', 'opus', 'Acorn', 'Watford', 'Opus')] + \
+                    ([(u, True) for u in ('acorn', 'watford', 'opus')] if sel else []):
+                r, tree = run_variant(d, fname, cmd, [], [], ui, ui_late=late)
                 res['n'] += 1
-                if cmd[0] == 'cat' and r.status() == 'exit0' and base.status() == 'exit0':
+                if verb == 'cat' and r.status() == 'exit0' and base.status() == 'exit0':
                     if cat_data(base.out)[0] == 'unparsed':
                         # names with control characters: the layout cannot be parsed back; only the differential
                         # checks (verbose/show-config above, build configurations in C19) use this image
                         bump(res, 'cat-unparseable-skipped')
                     elif cat_data(r.out) != cat_data(base.out):
-                        res['viol'].append((sig + ':ui-changes-cat-data', '%s --ui %s: %r vs %r' % (fname, ui, cat_data(r.out)[:4], cat_data(base.out)[:4])))
+                        res['viol'].append((sig + ':ui-changes-cat-data' + (':after-selection' if late else ''), '%s --ui %s: %r vs %r' % (fname, ui, cat_data(r.out)[:4], cat_data(base.out)[:4])))
                     else:
                         bump(res, 'cat-same-data')
                 elif (r.status(), r.out, tree) != (base.status(), base.out, btree):
-                    if cmd[0] == 'cat' and r.status() == base.status():
+                    if verb == 'cat' and r.status() == base.status():
                         bump(res, 'same')
                         continue
-                    res['viol'].append(('%s:ui-changes-%s' % (sig, cmd[0]), '%s --ui %s %r: %s/%dB vs %s/%dB' % (
+                    res['viol'].append(('%s:ui-changes-%s%s' % (sig, verb, ':after-selection' if late else ''), '%s --ui %s %r: %s/%dB vs %s/%dB' % (
                         fname, ui, cmd, r.status(), len(r.out), base.status(), len(base.out))))
                 else:
                     bump(res, 'same')
